@@ -45,7 +45,7 @@ META = {
                   "structures (depth<=6, adversarial keys), module graphs and edited state dicts.",
     "level_note": "Trusted: Coq kernel+vm_compute; the hand-written model (checked against the code only on generated inputs); the JSON "
                   "oracle contract json.loads(json.dumps(p)) == p with element types, and injectivity of json.dumps, validated in Python on "
-                  "every generated path; torch copy_/detach semantics as observed (1-D float64 tensors only; identity by id() for "
+                  "every generated path; torch copy_/detach semantics as observed (the model sees a tensor as identity + row-major logical contents; exercised with rank 0/1/2 and empty tensors, float64/32/16, bfloat16, int64, transposed/strided/offset views, requires_grad, shared tensors; identity by id() + unchanged storage for "
                   "flatten/unflatten/load, by storage pointer for state_dict whose leaves are detach()ed aliases). Not modelled: set members, "
                   "aliased containers / cyclic graphs, bool/float/None keys, tensors of rank != 1, keep_vars/destination arguments.",
     "ready": True,
@@ -127,15 +127,44 @@ class Registry:
         self.by_ptr = {}
         self.extra = {}          # id of unknown objects -> fresh serial >= 900
         self.ptrs = []           # serial -> storage pointer at creation
+        self.flavours = []       # serial -> (shape, dtype, layout, requires_grad)
+        self.opaque = {}         # id of a tuple/list used as an opaque leaf -> token
+        self.keep = []
 
-    def new(self, values):
+    @staticmethod
+    def storage_key(t):
+        return (t.untyped_storage().data_ptr(), t.storage_offset(), tuple(t.shape), tuple(t.stride()))
+
+    def new(self, values, shape=None, flav=None):
+        """A fresh tensor with the given row-major logical contents.  `flav` = dtype / memory layout / autograd flag:
+        the model sees none of them (identity + logical contents only)."""
         import torch
-        t = torch.tensor([float(v) for v in values], dtype=torch.float64)
+        n = len(values)
+        shape = tuple(shape) if shape is not None else (n,)
+        flav = flav or {}
+        dt = getattr(torch, flav.get("dtype", "float64"))
+        layout = flav.get("layout", "contig")
+        base = torch.tensor([float(v) for v in values], dtype=torch.float64)
+        if n == 0:
+            t = torch.zeros(1, dtype=dt)[0:0]            # empty view of a real buffer: a storage pointer of its own
+        elif layout == "transposed" and len(shape) == 2:
+            t = base.reshape(shape).t().contiguous().to(dt).t()
+        elif layout == "strided" and len(shape) == 1:
+            t = torch.zeros(2 * n, dtype=dt)[::2]
+            t.copy_(base)
+        elif layout == "offset" and len(shape) == 1:
+            t = torch.zeros(n + 2, dtype=dt)[1:1 + n]
+            t.copy_(base)
+        else:
+            t = base.reshape(shape).to(dt)
+        if flav.get("grad"):
+            t.requires_grad_(True)
         s = len(self.objs)
         self.objs.append(t)
         self.by_id[id(t)] = s
-        self.by_ptr[t.untyped_storage().data_ptr()] = s
+        self.by_ptr[self.storage_key(t)] = s
         self.ptrs.append(t.untyped_storage().data_ptr())
+        self.flavours.append((shape, flav.get("dtype", "float64"), layout, bool(flav.get("grad"))))
         return s, t
 
     def serial_by_id(self, t):
@@ -148,16 +177,40 @@ class Registry:
         return s
 
     def serial_by_storage(self, t):
-        if t.dim() != 1 or t.storage_offset() != 0:
-            return self.serial_by_id(t)
-        s = self.by_ptr.get(t.untyped_storage().data_ptr())
+        s = self.by_ptr.get(self.storage_key(t))
         if s is None:
             return self.serial_by_id(t)
         return s
 
     def heap(self):
         n = len(self.ptrs)
-        return [(s, [int(x) if float(x).is_integer() else 10 ** 9 for x in self.objs[s].tolist()]) for s in range(n)]
+        import torch
+        return [(s, [int(x) if float(x).is_integer() else 10 ** 9
+                     for x in self.objs[s].detach().to(torch.float64).reshape(-1).tolist()]) for s in range(n)]
+
+    def nondefault(self):
+        return [f for f in self.flavours if not (len(f[0]) == 1 and f[0][0] >= 1 and f[1] == "float64" and f[2] == "contig" and not f[3])]
+
+
+DTYPES = ["float64", "float32", "bfloat16", "float16", "int64"]
+SHAPES = [(), (2, 2), (3, 1), (1, 3), (0,), (1,), (2,), (3,)]
+
+
+def rand_flavour(rng, shape, p=0.4):
+    if rng.random() >= p:
+        return {}
+    dtype = rng.choice(DTYPES)
+    layouts = ["contig", "contig"] + (["transposed"] if len(shape) == 2 else []) + (["strided", "offset"] if len(shape) == 1 else [])
+    layout = rng.choice(layouts)
+    grad = dtype != "int64" and layout == "contig" and rng.random() < 0.3
+    return {"dtype": dtype, "layout": layout, "grad": grad}
+
+
+def numel(shape):
+    n = 1
+    for d in shape:
+        n *= d
+    return n
 
 
 def coq_heap(hp) -> str:
@@ -187,8 +240,16 @@ def gen_tree(rng, depth, maxdepth, stats):
         if depth < maxdepth and rng.random() < (0.55 if depth < 3 else 0.45):
             items.append((k, gen_tree(rng, depth + 1, maxdepth, stats)))
         else:
-            if rng.random() < 0.85:
+            r2 = rng.random()
+            if r2 < 0.55:
                 items.append((k, ("L", ("T", [rng.randint(-9, 9) for _ in range(rng.randint(1, 3))]))))
+            elif r2 < 0.76:     # tensors of other rank / dtype / layout: flatten must not care
+                sh = rng.choice(SHAPES)
+                items.append((k, ("L", ("T", [rng.randint(-9, 9) for _ in range(numel(sh))], list(sh), rand_flavour(rng, sh, 0.8)))))
+            elif r2 < 0.82:     # the same tensor object under several keys
+                items.append((k, ("L", ("R", rng.randint(0, 1)))))
+            elif r2 < 0.87:     # a tuple/list value is a leaf for flatten (an opaque object)
+                items.append((k, ("L", ("Q", rng.choice(["tuple", "list"])))))
             else:
                 items.append((k, ("L", ("O",) + norm_other(rng.randint(0, 4), rng.randint(0, 40)))))
     # collision families: a key containing a separator next to the split path
@@ -222,17 +283,29 @@ def tree_leafless_subdicts(spec):
     return sum((0 if tree_has_leaf(v) else 1) + tree_leafless_subdicts(v) for _, v in spec[1] if v[0] == "N")
 
 
-def build_tree(spec, reg):
+def build_tree(spec, reg, shared=None):
     """-> (python dict, coq term of the model tree)"""
+    shared = {} if shared is None else shared
     if spec[0] == "L":
         lf = spec[1]
         if lf[0] == "T":
-            s, t = reg.new(lf[1])
+            s, t = reg.new(lf[1], lf[2] if len(lf) > 2 else None, lf[3] if len(lf) > 3 else None)
             return t, f"Leaf (LT {s})"
+        if lf[0] == "R":
+            if lf[1] not in shared:
+                shared[lf[1]] = reg.new([lf[1]])
+            s, t = shared[lf[1]]
+            return t, f"Leaf (LT {s})"
+        if lf[0] == "Q":
+            inner = [reg.new([1])[1], reg.new([2])[1]]
+            o = inner if lf[1] == "list" else tuple(inner)
+            tok = reg.opaque.setdefault(id(o), len(reg.opaque))
+            reg.keep.append(o)
+            return o, f"Leaf (LV 5 {tok})"
         return other_value(lf[1], lf[2]), f"Leaf (LV {lf[1]} {lf[2]})"
     d, terms = {}, []
     for k, v in spec[1]:
-        o, tm = build_tree(v, reg)
+        o, tm = build_tree(v, reg, shared)
         d[k] = o
         terms.append(f"({coq_key(k)}, {tm})")
     return d, "Node [" + "; ".join(terms) + "]"
@@ -242,6 +315,9 @@ def leaf_term(x, reg, by="id"):
     import torch
     if isinstance(x, torch.Tensor):
         return f"LT {reg.serial_by_id(x) if by == 'id' else reg.serial_by_storage(x)}"
+    if isinstance(x, (list, tuple)):
+        tok = reg.opaque.get(id(x))
+        return f"LV 5 {tok}" if tok is not None else "LV 6 0"
     ty, v = other_token(x)
     return f"LV {ty} {v}"
 
@@ -340,21 +416,30 @@ def gen_skel(rng, depth, maxdepth, top=False, allow_other=True):
         return ("S", rng.choice(["list", "tuple"]), [gen_skel(rng, depth + 1, maxdepth, allow_other=allow_other) for _ in range(n)])
     if allow_other and r > 0.82:
         return ("O", rng.randint(0, 4))
-    return ("T", rng.randint(1, 3))
+    if rng.random() < 0.3:
+        return ("T", rng.choice(SHAPES))
+    return ("T", (rng.randint(1, 3),))
 
 
-def instantiate(rng, sk, reg):
-    """-> spec with serials: ('T', serial, values) | ('O', ty, v) | containers"""
-    if sk[0] == "T":
-        vals = [rng.randint(-9, 9) for _ in range(sk[1])]
-        s, _ = reg.new(vals)
+def instantiate(rng, sk, reg, shared=None):
+    """-> spec with serials: ('T', serial) | ('O', ty, v) | containers.  ('A', k, shape) = the k-th shared tensor
+    (the same object reachable through several paths)."""
+    shared = {} if shared is None else shared
+    if sk[0] in "TA":
+        shape = sk[-1] if not isinstance(sk[-1], int) else (sk[-1],)
+        if sk[0] == "A" and sk[1] in shared:
+            return ("T", shared[sk[1]])
+        vals = [rng.randint(-9, 9) for _ in range(numel(shape))]
+        s, _ = reg.new(vals, shape, rand_flavour(rng, shape))
+        if sk[0] == "A":
+            shared[sk[1]] = s
         return ("T", s)
     if sk[0] == "O":
         ty = sk[1] if rng.random() < 0.8 else rng.randint(0, 4)
         return ("O",) + norm_other(ty, rng.randint(0, 40))
     if sk[0] == "S":
-        return ("S", sk[1], [instantiate(rng, e, reg) for e in sk[2]])
-    return (sk[0], [(k, instantiate(rng, e, reg)) for k, e in sk[1]])
+        return ("S", sk[1], [instantiate(rng, e, reg, shared) for e in sk[2]])
+    return (sk[0], [(k, instantiate(rng, e, reg, shared)) for k, e in sk[1]])
 
 
 def make_module_class():
@@ -421,7 +506,7 @@ def spec_tensor_count(spec):
 
 
 def spec_depth(spec):
-    if spec[0] in "TO":
+    if spec[0] in "TOA":
         return 0
     ch = spec[2] if spec[0] == "S" else [e for _, e in spec[1]]
     return 1 + max([spec_depth(e) for e in ch] + [0])
@@ -480,6 +565,8 @@ def edit_state_dict(rng, sd, spec_old, reg, b_load):
     else:
         choices += ["othertype", "tensor", "dict"]
     c = rng.choice(choices)
+    if c in ("len1", "lenbad") and reg.objs[e[1]].dim() != 1:
+        c = "dict"          # the 1-D broadcasting rule of the model only speaks about 1-D targets
     if c == "missing":
         d.pop(k, None)
     elif c == "extra":
@@ -508,6 +595,189 @@ def edit_state_dict(rng, sd, spec_old, reg, b_load):
 
 # ----------------------------------------------------------------------------------------------
 # case records
+
+# ----------------------------------------------------------------------------------------------
+# quantifier audit: which input classes named (or plainly allowed) by the property were generated in this run
+
+def bump(stats, cls, n=1):
+    a = stats.setdefault("audit", {})
+    a[cls] = a.get(cls, 0) + n
+
+
+def _sorted_ok(keys):
+    try:
+        return list(keys) == sorted(keys)
+    except TypeError:
+        return True
+
+
+def audit_tree(spec, A):
+    """Classes of one nested-dict input (counted once per input)."""
+    found = set()
+
+    def walk(node, depth):
+        if node[0] == "L":
+            lf = node[1]
+            if lf[0] == "R":
+                found.add("flat:same_tensor_object_under_several_keys")
+            elif lf[0] == "Q":
+                found.add("flat:tuple_or_list_value_as_leaf_object")
+            elif lf[0] == "O":
+                found.add("flat:non_tensor_leaf")
+            return
+        items = node[1]
+        keys = [k for k, _ in items]
+        ints = [k for k in keys if isinstance(k, int)]
+        strs = [k for k in keys if isinstance(k, str)]
+        if ints and strs:
+            found.add("flat:int_and_str_keys_as_siblings")
+        for k in ints:
+            if str(k) in strs:
+                found.add("flat:same_spelling_int_and_str_siblings(0 next to '0')")
+                sub = dict((type(q).__name__ + repr(q), v) for q, v in items)
+                if sub["int" + repr(k)][0] == "N" and sub["str" + repr(str(k))][0] == "N":
+                    found.add("flat:same_spelling_int_and_str_PARENT_keys")
+        for k, v in items:
+            if v[0] == "N":
+                for ck_, cv in v[1]:
+                    for sep in SEPS + ["."]:
+                        if (str(k) + sep + str(ck_)) in strs:
+                            found.add("flat:key_with_separator_next_to_the_split_path('a.b' next to 'a'->'b')")
+                            tgt = dict((q, w) for q, w in items if isinstance(q, str)).get(str(k) + sep + str(ck_))
+                            if tgt is not None and tgt[0] == "N" and cv[0] == "N":
+                                found.add("flat:separator_collision_between_PARENT_paths")
+            if k == "":
+                found.add("flat:empty_string_key")
+                if v[0] == "N" and v[1]:
+                    found.add("flat:empty_string_PARENT_key")
+            if isinstance(k, int) and (k < 0 or abs(k) >= 2 ** 31):
+                found.add("flat:negative_or_beyond_int32_int_key")
+            if isinstance(k, int) and abs(k) >= 2 ** 63:
+                found.add("flat:int_key_beyond_int64")
+            if isinstance(k, str):
+                if any(ord(c) > 127 or ord(c) < 32 for c in k):
+                    found.add("flat:non_ascii_or_control_char_key")
+                if any(c in k for c in '"\\[],/.'):
+                    found.add("flat:key_with_quote_backslash_bracket_comma_slash_dot")
+                if k.lstrip("-").isdigit() or k in ("true", "null", "1.0", "1e3"):
+                    found.add("flat:numeric_or_json_literal_looking_str_key")
+        if len(items) >= 20:
+            found.add("flat:dict_level_with_20_or_more_keys")
+        if (ints and not strs and not _sorted_ok(ints)) or (strs and not ints and not _sorted_ok(strs)):
+            found.add("flat:insertion_order_differs_from_sorted_order")
+        for k, v in items:
+            if v[0] == "N" and not tree_has_leaf(v):
+                found.add("flat:leafless_sub_dict")
+                if any(w[0] == "N" for _, w in v[1]):
+                    found.add("flat:leafless_sub_dict_nested_in_leafless_sub_dict")
+                if any(tree_has_leaf(w) for q, w in items if q is not k):
+                    found.add("flat:leafless_sub_dict_next_to_a_leaf")
+            walk(v, depth + 1)
+
+    walk(spec, 0)
+    d = tree_depth(spec)
+    if d == 6:
+        found.add("flat:nesting_depth_6")
+    if d > 6:
+        found.add("flat:nesting_depth_above_6")
+    if not spec[1]:
+        found.add("flat:empty_top_level_dict")
+    elif not tree_has_leaf(spec):
+        found.add("flat:no_leaf_at_all")
+    if tree_leafless_subdicts(spec) == 0 and spec[1]:
+        found.add("flat:every_sub_dict_holds_a_leaf")
+    for c in found:
+        A[c] = A.get(c, 0) + 1
+
+
+def audit_skel(sk, A, ncases, stream):
+    """Classes of one object-graph skeleton; counted with the number of cases generated from it."""
+    found = set()
+
+    def tcount(e):
+        if e[0] in "TA":
+            return 1
+        if e[0] == "O":
+            return 0
+        return sum(tcount(x) for x in (e[2] if e[0] == "S" else [v for _, v in e[1]]))
+
+    def walk(e, depth, in_seq):
+        if e[0] in "TA":
+            shape = e[-1] if not isinstance(e[-1], int) else (e[-1],)
+            if len(shape) == 0:
+                found.add("zero_dim_tensor")
+            if len(shape) >= 2:
+                found.add("tensor_of_rank_2")
+            if numel(shape) == 0:
+                found.add("empty_tensor")
+            if e[0] == "A":
+                found.add("same_tensor_object_reachable_through_several_paths")
+            return
+        if e[0] == "O":
+            found.add("non_tensor_value")
+            return
+        ch = e[2] if e[0] == "S" else [v for _, v in e[1]]
+        if e[0] == "M" and depth > 0:
+            found.add("nested_module")
+            if in_seq:
+                found.add("module_as_sequence_element")
+        if e[0] == "M" and not ch:
+            found.add("module_without_attributes")
+        if e[0] != "S" and depth > 0 and tcount(e) == 0:
+            found.add("leafless_container(no tensor inside)")
+            if ch:
+                found.add("leafless_container_with_leafless_content")
+        if e[0] == "D":
+            ks = [k for k, _ in e[1]]
+            if any(isinstance(k, int) for k in ks) and any(isinstance(k, str) for k in ks):
+                found.add("dict_with_int_and_str_keys")
+            if any(isinstance(k, int) and str(k) in ks for k in ks):
+                found.add("dict_with_0_next_to_'0'")
+        if e[0] == "S":
+            found.add("tuple" if e[1] == "tuple" else "list")
+            kinds = [x[0] for x in ch]
+            if "O" in kinds and any(kd in "TA" for kd in kinds):
+                found.add("sequence_with_non_tensor_between_or_before_tensors(sparse saved dict)")
+                first_t = min(i for i, kd in enumerate(kinds) if kd in "TA")
+                if "O" in kinds[:first_t]:
+                    found.add("sequence_starting_with_non_tensors")
+            if any(x[0] in "MDS" and tcount(x) == 0 for x in ch) and tcount(e) > 0:
+                found.add("sequence_with_leafless_container_element_and_tensors")
+            if len(ch) >= 11:
+                found.add("sequence_of_11_or_more_elements")
+            if not ch:
+                found.add("empty_sequence")
+            if any(x[0] == "S" for x in ch):
+                found.add("sequence_nested_in_sequence")
+            if in_seq is False and any(x[0] == "D" for x in ch):
+                found.add("dict_as_sequence_element")
+        for x in ch:
+            walk(x, depth + 1, e[0] == "S")
+
+    walk(sk, 0, False)
+    if stream == "restore":
+        def dwalk(e, depth):      # dict levels of a parameter state only (not inside modules)
+            if e[0] != "D":
+                return
+            for _, v in e[1]:
+                if v[0] == "O":
+                    found.add("non_tensor_entry_of_the_state(deepcopy branch)")
+                if v[0] == "M" and tcount(v) == 0:
+                    found.add("leafless_module_as_entry" + ("_of_a_nested_dict" if depth > 0 else ""))
+                    if depth > 0 and tcount(e) == 0:
+                        found.add("nested_dict_entry_holding_only_leafless_modules")
+                if v[0] == "D" and tcount(v) == 0:
+                    found.add("leafless_dict_as_entry")
+                dwalk(v, depth + 1)
+        dwalk(sk, 0)
+    if spec_depth(sk) >= 5:
+        found.add("graph_depth_5_or_more")
+    if tcount(sk) == 0:
+        found.add("no_tensor_at_all")
+    for c in found:
+        key = f"{stream}:{c}"
+        A[key] = A.get(key, 0) + ncases
+
 
 class Case:
     __slots__ = ("stream", "defs", "agree", "check", "replay", "nontrivial", "sig_hint", "desc")
@@ -549,8 +819,9 @@ def unjspec(j):
 # ----------------------------------------------------------------------------------------------
 # streams
 
-def flat_case(ck, idx, spec, jc, stats) -> Case:
+def flat_case(ck, idx, spec, jc, stats, permute=False) -> Case:
     from distributed_shampoo.utils.shampoo_checkpoint_utils import flatten, unflatten
+    audit_tree(spec, stats.setdefault("audit", {}))
     reg = Registry()
     d, dterm = build_tree(spec, reg)
     for p in all_paths(spec):
@@ -574,6 +845,24 @@ def flat_case(ck, idx, spec, jc, stats) -> Case:
     defs.append(f"Definition {name}_u : dict := {dict_term(un, reg)}.")
     agree = f"agree_flatten {name}_d {name}_x && agree_unflatten {name}_x (Ok {name}_u)"
     check = f"C16_checkb (ObsFlat {name}_d {raw} {name}_u)"
+    if permute and len(raw_items) >= 2:
+        # a flat dict whose entries arrive in another order (e.g. a re-ordered checkpoint) must unflatten to an equal dict
+        perm = list(raw_items)
+        ck.rng.shuffle(perm)
+        try:
+            un2 = unflatten(dict(perm))
+        except Exception as ex:  # noqa
+            rp["raised"] = repr(ex)
+            return Case("flat", defs, "false", "false", rp, desc=f"unflatten of the permuted flat dict raised {ex!r}")
+        x2 = "[" + "; ".join(f"({coq_xkey(k)}, {leaf_term(v, reg)})" for k, v in perm) + "]"
+        defs.append(f"Definition {name}_x2 : list (xkey * lf) := {x2}.")
+        defs.append(f"Definition {name}_u2 : dict := {dict_term(un2, reg)}.")
+        agree += f" && agree_unflatten {name}_x2 (Ok {name}_u2)"
+        check += f" && tree_eqvb (Node {name}_u2) (Node (prune_dict {name}_d))"
+        rp["permuted_keys"] = [k for k, _ in perm]
+        bump(stats, "permuted_flat_input")
+    if reg.nondefault():
+        bump(stats, "tensor_leaf_not_1d_contiguous_float64")
     rp["flat_keys"] = [k for k, _ in raw_items]
     stats["flat_keys"] = stats.get("flat_keys", 0) + len(raw_items)
     return Case("flat", defs, agree, check, rp, nontrivial=tree_depth(spec) >= 2 and len(raw_items) >= 2,
@@ -627,12 +916,12 @@ def json_only_valueerror(raw: str) -> bool:
     return isinstance(q, list) and all(type(a) in (int, str) for a in q)
 
 
-def module_cases(ck, idx0, rng, jc, stats, maxdepth) -> list[Case]:
-    """Streams C and D on one random module skeleton."""
+def module_cases(ck, idx0, rng, jc, stats, maxdepth, sk=None) -> list[Case]:
+    """Streams C and D on one module skeleton (random unless given)."""
     import copy
     from distributed_shampoo.utils.shampoo_checkpoint_utils import flatten, unflatten
     M = make_module_class()
-    sk = gen_skel(rng, 0, maxdepth, top=True)
+    sk = sk if sk is not None else gen_skel(rng, 0, maxdepth, top=True)
     cases = []
     idx = idx0
 
@@ -735,12 +1024,60 @@ def module_cases(ck, idx0, rng, jc, stats, maxdepth) -> list[Case]:
         hint = None
         if var == "roundtrip" and not ok and "KeyError" in rp.get("raised", "") and spec_has_leafless_seq_elem(s_old):
             hint = "C16:module-load-keyerror-on-leafless-seq-element"
+        if reg.nondefault():
+            bump(stats, "load_with_tensor_not_1d_contiguous_float64")
+        nt = len(reg.flavours) // 2 if var != "edited" else 0
+        if any(reg.flavours[i][1] != reg.flavours[nt + i][1] for i in range(min(nt, len(reg.flavours) - nt))):
+            bump(stats, "load_dtype_differs_between_source_and_target")
         stats.setdefault("load_variants", {}).setdefault(var + (":" + label if label else ""), 0)
         stats["load_variants"][var + (":" + label if label else "")] += 1
         stats.setdefault("load_outcomes", {}).setdefault("ok" if ok else rp["raised"].split("(")[0], 0)
         stats["load_outcomes"]["ok" if ok else rp["raised"].split("(")[0]] += 1
         cases.append(Case("load" if speaks else "load-malformed", defs, agree, check, rp, nontrivial=spec_tensor_count(s_old) >= 2,
                           sig_hint=hint, desc=f"load_state_dict ({var}{' ' + label if label else ''}, save={b_save}, load={b_load})"))
+
+    # ---- D': a module loading its own state dict (directly / through flatten+unflatten), and two loads in a row
+    for var, b in (("self", False), ("self-roundtrip", True), ("twice", False), ("twice", True)):
+        reg = Registry()
+        s_old = instantiate(rng, sk, reg)
+        m = build_obj(s_old, reg, M)
+        name = f"c{idx}"
+        idx += 1
+        rp = {"stream": "load", "variant": var, "old": jspec(s_old), "new": jspec(s_old), "b_save": b, "b_load": b}
+        defs = [f"Definition {name}_m : obj := {obj_term(s_old)}."]
+        try:
+            if var.startswith("self"):
+                sds = [m.state_dict(store_non_tensors=b)]
+                if var == "self-roundtrip":
+                    sds = [unflatten(flatten(sds[0]))]
+                last = s_old
+            else:
+                s1, s2 = instantiate(rng, sk, reg), instantiate(rng, sk, reg)
+                sds = [build_obj(s1, reg, M).state_dict(store_non_tensors=b), build_obj(s2, reg, M).state_dict(store_non_tensors=b)]
+                last = s2
+                rp["new"] = jspec(s2)
+            defs.append(f"Definition {name}_n : obj := {obj_term(last)}.")
+            h0 = reg.heap()
+            for i, sd in enumerate(sds):
+                defs.append(f"Definition {name}_t{i} : tree := {pytree_term(sd, reg, by='storage')}.")
+            defs.append(f"Definition {name}_h : list (nat * list Z) := {coq_heap(h0)}.")
+            for sd in sds:
+                m.load_state_dict(sd, store_non_tensors=b)
+            defs.append(f"Definition {name}_o : obj := {observe_obj(m, reg)}.")
+            defs.append(f"Definition {name}_g : list (nat * list Z) := {coq_heap(reg.heap())}.")
+        except Exception as ex:  # noqa
+            rp["raised"] = repr(ex)
+            cases.append(Case("load", defs[:1], "false", "false", rp, desc=f"load_state_dict ({var}) raised {ex!r}"))
+            continue
+        bb = coq_bool(b)
+        model = f"load_state_dict {bb} {name}_m {name}_t0 (heap_of {name}_h)"
+        if len(sds) == 2:
+            model = f"match {model} with Ok (o, h) => load_state_dict {bb} o {name}_t1 h | Raise e => Raise e end"
+        agree = f"agree_outcome ({model}) (Ok ({name}_o, {name}_g))"
+        check = f"C16_checkb (ObsLoad {name}_m {name}_n {name}_h true (tensors {name}_o) {name}_g)"
+        bump(stats, "load_own_state_dict" if var.startswith("self") else "two_loads_in_a_row")
+        cases.append(Case("load", defs, agree, check, rp, nontrivial=spec_tensor_count(s_old) >= 2, desc=f"load_state_dict ({var}, store_non_tensors={b})"))
+    audit_skel(sk, stats.setdefault("audit", {}), len(cases), "module")
     return cases
 
 
@@ -764,17 +1101,20 @@ def gen_pstate_skel(rng, depth):
                 items.append((k, ("M", fields)))
             else:
                 items.append((k, gen_skel(rng, 1, 3, top=True)))
+        elif r < 0.92:
+            items.append((k, ("T", (rng.randint(1, 3),) if rng.random() < 0.7 else rng.choice(SHAPES))))
         else:
-            items.append((k, ("T", rng.randint(1, 3))))
+            items.append((k, ("O", rng.randint(0, 4))))     # a non-tensor entry (restored by deepcopy)
     return ("D", items)
 
 
-def restore_cases(ck, idx0, rng, jc, stats) -> list[Case]:
+def restore_cases(ck, idx0, rng, jc, stats, sk=None) -> list[Case]:
     import copy
     from distributed_shampoo.utils.shampoo_checkpoint_utils import (extract_state_dict_content, flatten, unflatten,
                                                                     update_param_state_dict_object)
     M = make_module_class()
-    sk = gen_pstate_skel(rng, 0)
+    sk = sk if sk is not None else gen_pstate_skel(rng, 0)
+    audit_skel(sk, stats.setdefault("audit", {}), 4, "restore")
     cases = []
     idx = idx0
     for var, chk in (("roundtrip", True), ("roundtrip", False), ("missing", True), ("missing", False)):
@@ -880,7 +1220,85 @@ def crafted_trees():
     for i in range(6):
         t = ("N", [(i, t), (str(i), T(i))])
     out.append(t)
+    # ---- quantifier audit: classes a random draw may miss in the quick tier
+    X = lambda: ("N", [("x", T(1)), ("y", T(2))])  # noqa
+    out += [
+        # equal leaf names under parent paths that differ only in key type / separator / emptiness
+        ("N", [(0, X()), ("0", X())]),
+        ("N", [("0", X()), (0, X()), (1, ("N", [("2", X()), (2, X())])), ("1", ("N", [(2, X())]))]),
+        ("N", [("a.b", X()), ("a", ("N", [("b", X())]))]),
+        ("N", [("a", ("N", [("b", X())])), ("a.b", X()), ("1.2", X()), (1, ("N", [(2, X())])), ("1", ("N", [("2", X())]))]),
+        ("N", [("", X()), ("x", T(3)), ("y", ("N", [("", X())]))]),
+        ("N", [("x", T(3)), ("", ("N", [("", ("N", [("", X())])), ("x", T(4))]))]),
+        ("N", [("a", ("N", [("", X())])), ("a.", X()), (".", X()), ("", ("N", [("", X())]))]),
+        ("N", [("step", T(1)), (0, T(2))]),
+        ("N", [("factor_matrices", ("N", [(0, T(1)), (1, T(2)), ("shape", T(3))]))]),
+        # insertion order that no sort reproduces
+        ("N", [(2, T(1)), (0, T(2)), (10, T(3)), (1, T(4)), (-1, T(5))]),
+        ("N", [("b", T(1)), ("a", ("N", [("z", T(2)), ("y", T(3))])), ("B", T(4)), ("", T(5))]),
+        # every adversarial key as a sibling of every other (wide level), once flat and once as parents
+        ("N", [(k, T(i)) for i, k in enumerate(STR_KEYS + INT_KEYS)]),
+        ("N", [(k, ("N", [(k2, T(1)) for k2 in ("", 0, "0")])) for k in STR_KEYS[:24] + INT_KEYS]),
+        # leafless shapes
+        ("N", [("only", ("N", [("empty", ("N", []))]))]),
+        ("N", [("e", ("N", [])), ("t", T(1)), ("f", ("N", [(0, ("N", [])), ("0", ("N", []))]))]),
+        # leaves: the same object twice, a tuple / list value, tensors of rank 0 / 2, empty, other dtypes and layouts
+        ("N", [("a", ("L", ("R", 0))), ("b", ("N", [("a", ("L", ("R", 0))), ("c", ("L", ("R", 1)))])), ("c", ("L", ("R", 1)))]),
+        ("N", [("t", ("L", ("Q", "tuple"))), ("l", ("N", [(0, ("L", ("Q", "list")))])), ("x", T(1))]),
+        ("N", [("s", ("L", ("T", [5], [], {"dtype": "float32"}))), ("m", ("L", ("T", [1, 2, 3, 4], [2, 2], {"dtype": "bfloat16", "layout": "transposed"}))),
+               ("e", ("L", ("T", [], [0], {}))), ("i", ("L", ("T", [1, 2], [2], {"dtype": "int64", "layout": "strided"}))),
+               ("g", ("L", ("T", [1, 2], [2], {"dtype": "float16", "grad": True})))]),
+    ]
+    # beyond the property's depth bound (the theorems hold for any depth)
+    t = T(9)
+    for i in range(9):
+        t = ("N", [(("k", i)[i % 2], t)])
+    out.append(t)
     return out
+
+
+def crafted_skels():
+    """Module skeletons for input classes the property names and a random draw may miss in the quick tier."""
+    T1, T2 = ("T", (2,)), ("T", (1,))
+    deep = T1
+    for i in range(6):
+        deep = [("M", [("inner", deep), ("w", T2)]), ("D", [(i, deep), (str(i), T2)]), ("S", "tuple", [T2, deep]), ("S", "list", [deep])][i % 4]
+    return [
+        ("M", []),
+        ("M", [("cfg", ("O", 0)), ("d", ("D", [])), ("t", ("S", "tuple", [])), ("inner", ("M", [])), ("l", ("S", "list", [("D", [])]))]),
+        ("M", [("blocks", ("S", "tuple", [T1, ("O", 0), T1, ("O", 3), ("O", 1), T1]))]),
+        ("M", [("l", ("S", "list", [("O", 0), ("O", 0), T1])), ("t", ("S", "tuple", [("O", 1), T2, ("O", 1)]))]),
+        ("M", [("x", ("S", "tuple", [("S", "list", []), T1, ("M", []), ("D", []), T1, ("M", [("cfg", ("O", 0))])]))]),
+        ("M", [("l", ("S", "list", [("T", (1,)) for _ in range(13)])), ("t", ("S", "tuple", [("O", 0)] * 10 + [T1, ("O", 0), T1]))]),
+        ("M", [("t", ("S", "tuple", [("S", "tuple", [T1, ("S", "list", [T1, ("S", "tuple", [T1])])]),
+                                     ("S", "list", [("M", [("w", T1)]), ("D", [(0, T1), ("0", T1)])])]))]),
+        ("M", [("d", ("D", [(0, T1), ("0", T1), (1, ("D", [("1", T1), (1, T1)])), ("", T1), ("a.b", T1), ("a", ("D", [("b", T1)]))]))]),
+        ("M", [("a", ("A", 0, (2,))), ("b", ("A", 0, (2,))), ("c", ("S", "tuple", [("A", 0, (2,)), ("A", 1, (3,))])), ("d", ("D", [("k", ("A", 1, (3,)))]))]),
+        ("M", [("s0", ("T", ())), ("m22", ("T", (2, 2))), ("m31", ("T", (3, 1))), ("e", ("T", (0,))), ("v", ("T", (3,))),
+               ("tp", ("S", "tuple", [("T", (2, 2)), ("T", ())]))]),
+        ("M", [("s0", ("T", ())), ("m22", ("T", (2, 2))), ("m13", ("T", (1, 3))), ("e", ("T", (0,))), ("v", ("T", (3,))),
+               ("l", ("S", "list", [("T", (2, 2)), ("T", ()), ("T", (0,))]))]),
+        ("M", [("factor_matrices", ("S", "tuple", [("T", (2, 2)), ("T", (2, 2))])), ("inv_factor_matrices", ("S", "tuple", [("T", (2, 2)), ("T", (2, 2))])),
+               ("factor_matrix_indices", ("S", "tuple", [("O", 1), ("O", 1)])), ("is_factor_matrices_diagonal", ("S", "tuple", [("T", ()), ("T", ())]))]),
+        ("M", [("factor_matrices", ("S", "tuple", [])), ("inv_factor_matrices", ("S", "tuple", [])), ("factor_matrix_indices", ("S", "tuple", []))]),
+        ("M", [("top", deep)]),
+    ]
+
+
+def crafted_pstates():
+    T1 = ("T", (2,))
+    hollow = ("M", [("factor_matrices", ("S", "tuple", [])), ("inv_factor_matrices", ("S", "tuple", []))])
+    return [
+        ("D", [("block_0", ("D", [("shampoo", hollow)])), ("step", T1)]),
+        ("D", [("block_0", ("D", [("shampoo", hollow), ("momentum", T1)])), ("block_1", ("D", [("shampoo", hollow)]))]),
+        ("D", [("a", ("D", [])), ("b", ("M", [])), ("c", ("D", [("d", ("D", [("e", hollow)]))]))]),
+        ("D", [("outer", ("D", [("mid", ("D", [("inner", ("D", [("m", hollow), ("n", ("M", [("cfg", ("O", 0))]))]))]))])), ("w", T1)]),
+        ("D", [("step", ("O", 0)), ("name", ("O", 1)), ("w", T1), ("blk", ("D", [("lr", ("O", 2)), ("m", T1), ("flag", ("O", 4)), ("none", ("O", 3))]))]),
+        ("D", [(0, T1), ("0", T1), ("", ("D", [("", T1)])), ("a.b", T1), ("a", ("D", [("b", T1)])), (1, ("D", [(1, hollow), ("1", T1)]))]),
+        ("D", [("blk", ("D", [("shampoo", ("M", [("factor_matrices", ("S", "tuple", [("T", (2, 2)), ("T", (2, 2))])), ("idx", ("S", "tuple", [("O", 1), ("O", 1)]))])),
+                              ("grafting", ("M", [("state", ("T", (2, 2)))])), ("step", ("T", ()))]))]),
+        ("D", []),
+    ]
 
 
 def run(ck: Check) -> None:
@@ -901,18 +1319,23 @@ def run(ck: Check) -> None:
     n_ps = 400 if thorough else 45
 
     trees = crafted_trees()
+    n_crafted = len(trees)
     while len(trees) < n_trees:
         trees.append(gen_tree(rng, 1, rng.choice([1, 2, 3, 4, 5, 6, 6]), stats))
-    for sp in trees:
-        cases.append(flat_case(ck, len(cases), sp, jc, stats))
+    for ti, sp in enumerate(trees):
+        cases.append(flat_case(ck, len(cases), sp, jc, stats, permute=ti < n_crafted or rng.random() < 0.15))
     made = 0
     while made < n_unflat:
         c = unflat_case(ck, len(cases), rng)
         if all(json_only_valueerror(k) for k, _ in c.replay["flat"]):
             cases.append(c)
             made += 1
+    for sk in crafted_skels():
+        cases += module_cases(ck, len(cases), rng, jc, stats, maxdepth=0, sk=sk)
     for _ in range(n_mod):
         cases += module_cases(ck, len(cases), rng, jc, stats, maxdepth=rng.choice([2, 3, 4, 5]))
+    for sk in crafted_pstates():
+        cases += restore_cases(ck, len(cases), rng, jc, stats, sk=sk)
     for _ in range(n_ps):
         cases += restore_cases(ck, len(cases), rng, jc, stats)
 
@@ -1001,6 +1424,19 @@ def run(ck: Check) -> None:
         "json_contract_violations": len(jc.bad),
         "disagreements": len(disagree),
         "checker_failures": len(failing),
+        # measured: number of generated cases (flat: inputs; module/restore: evaluations derived from such a skeleton) per input class
+        "quantifier_audit": dict(sorted(stats.get("audit", {}).items())),
+        "not_exercised": {
+            "bool / float / None dict keys": "outside the property's domain ('string or integer keys'); json would also turn them into other types",
+            "str keys with lone surrogates": "cannot be written into a UTF-8 case file; json.dumps escapes them like any non-ASCII character (exercised: BMP and astral characters)",
+            "set members of an object graph": "not named by the quantifier (tensors, dicts, tuples, lists, nested modules); iteration order of a set of tensors is id()-dependent, so no reproducible expected value exists",
+            "containers shared between two places of a graph, cyclic graphs": "the object-graph model is a tree of containers (only tensors may be shared, and are); a cycle makes state_dict recurse forever",
+            "aliased tensors whose counterparts are NOT aliased the same way": "'reproduces every tensor value' is unsatisfiable there (one object, two source values); only equal aliasing patterns are generated",
+            "tuple/list values directly inside a parameter state handed to update_param_state_dict_object": "restored by deepcopy of whatever was saved (replaces tensor objects by construction); the model declines (Unmodelled); the optimizer never stores them",
+            "size-mismatched tensors of rank != 1": "the malformed stream uses the 1-D broadcasting rule only; the property speaks about structurally equal modules",
+            "keep_vars=True / destination= arguments of state_dict": "not part of the property; destination is documented as internal",
+            "dicts nested deeper than 10 / thousands of keys": "no size-dependent code path exists in flatten/unflatten (pure recursion); depth 10 and a 60-key level are exercised",
+        },
     })
     ck.assumptions += [
         "oracle contract (Section hypothesis of the theorems): json.loads(json.dumps(p)) == p with element types and json.dumps injective on lists of str|int - "
